@@ -6,7 +6,7 @@ Pick(S) == RandomElement(S)
 MInit == Init /\ hist = <<>>
 Log == hist' = Append(hist, last')
 (* mostly valid contents, occasionally the invalid classes *)
-Ct == IF Pick(1..5) = 1 THEN Pick(Contents) ELSE "valid"
+Ct == IF Pick(1..5) = 1 THEN Pick(Contents) ELSE IF Pick(1..4) = 1 THEN "altroot" ELSE "valid"
 MNext ==
   /\ Len(hist) < Depth
   /\ \E w \in {Pick(1..10)}, n \in {Pick(Names)}, ty \in {Pick(Types)}, h \in {Pick(1..peerH)}, ct \in {Ct}, s \in {Pick(Signers)} :
